@@ -92,10 +92,11 @@ struct EvKey
 	EvKey(const EvKey & o) : v(o.v) { faultPoint(F_COPY); }
 	EvKey & operator = (const EvKey & o) { faultPoint(F_COPY); v = o.v; return *this; }
 	bool operator < (const EvKey & o) const { return v < o.v; }
-	bool operator == (const EvKey & o) const { return v == o.v; }
+	// comparisons and the hash are user code as well (fault kind F_CMP; enabled for the add / remove operations only, see execute())
+	bool operator == (const EvKey & o) const { faultPoint(F_CMP); return v == o.v; }
 };
 } // namespace sr
-namespace std { template <> struct hash<sr::EvKey> { size_t operator() (const sr::EvKey & k) const { return std::hash<int>()(k.v); } }; }
+namespace std { template <> struct hash<sr::EvKey> { size_t operator() (const sr::EvKey & k) const { sim::faultPoint(sim::F_CMP); return std::hash<int>()(k.v); } }; }
 namespace sr {
 struct ListTarget
 {
@@ -581,6 +582,13 @@ struct Interp : Sink
 			long arm = 0;
 			for(size_t f = 0; f + 1 < faults.size(); f += 2) if(faults[f] == (int)i) arm = faults[f + 1];
 			fc.countdown = arm; fc.lastFired = -1;
+			{
+				// throwing comparisons / hashes of the event type: injected into the listener-management operations (which must leave
+				// everything as it was), not into triggers, resets, moves and destructions (the latter are noexcept by design)
+				const int kd = ops[i].k;
+				const bool mgmt = kd == O_R_ADD || kd == O_D_ADD || kd == O_R_REMOVE || kd == O_D_REMOVE || kd == O_C_ADD || kd == O_X_ADD || kd == O_P_ADD;
+				fc.mask = mgmt ? 0x1fu : (0x1fu & ~(1u << F_CMP));
+			}
 			const long before = fc.passed;
 			bool threw = false;
 			const size_t depth = frames.size();
